@@ -804,6 +804,9 @@ class Interp:
                 return ops.ite(c, a, b)
             if isinstance(a, str) and isinstance(b, str) and a == b:
                 return a
+            if isinstance(a, tuple) and isinstance(b, tuple) and len(a) == len(b):
+                # (x, y) if c else (u, v): a fresh tuple either way - merged element by element
+                return tuple(self.merge_values(c, x, y, what) for x, y in zip(a, b))
         except Unsupported:
             pass
         raise Unsupported(f"cannot merge {what} of a conditional: {repr(a)[:80]} / {repr(b)[:80]}")
